@@ -204,6 +204,10 @@ func TestHarness(t *testing.T) {
 				}
 			}
 		}
+	case "remote":
+		for _, c := range RunRemotes() {
+			emit(c)
+		}
 	case "convert":
 		for _, c := range RunConvert(r, job.N) {
 			emit(c)
